@@ -460,8 +460,17 @@ HOM_NAMES = ["identity", "kron", "inverse_transpose", "uses_inv_argument", "det"
 @st.composite
 def compose_case(draw):
     c = draw(derived_case(max_dim=4, wlen=8, intdtype=False))
-    c["hom"] = draw(st.integers(0, 63))
+    # (sampled_from, not integers: integers() is biased towards 0 = the identity hom)
+    c["hom"] = draw(st.sampled_from(list(range(len(HOM_NAMES) * 3))))
+    if c["n"] == 2 and draw(st.integers(0, 2)) == 0:
+        c["hom"] = HOM_NAMES.index("lie.hom.sl2_irrep(%d)" % draw(st.integers(2, 5)))
     c["compute_inverses"] = draw(st.booleans())
+    if c["n"] == 2 and c["kind"] != "int" and draw(st.integers(0, 2)) == 0:
+        # 2x2 generators with an entry that is exactly 0 (quarter turn, shears through it):
+        # the polynomial maps (sl2_irrep and what is built on it) see 0**k terms there
+        z = draw(st.sampled_from([[[0.0, -1.0], [1.0, 0.0]], [[2.0, 1.0], [-1.0, 0.0]],
+                                  [[0.0, 1.0], [-1.0, 3.0]], [[1.0, 0.0], [2.0, 1.0]]]))
+        c["mats"][0] = z if c["kind"] == "real" else [[[x, 0.0] for x in row] for row in z]
     return c
 
 
@@ -492,8 +501,12 @@ def tensor_case(draw):
     k2 = draw(st.sampled_from(["real", "complex", "int"]))
     c = dict(n=n1, kind=k1, names=names, intdtype=False,
              mats=[draw(G.matrix(n1, k1)) for _ in range(k)])
-    c["second"] = dict(n=n2, kind=k2, names=names, intdtype=False,
-                       mats=[draw(G.matrix(n2, k2)) for _ in range(k)])
+    # the second factor is a representation of the same group whose generators may have
+    # been assigned in another order (generators are matched by NAME)
+    perm = draw(st.permutations(list(range(k))))
+    mats2 = [draw(G.matrix(n2, k2)) for _ in range(k)]
+    c["second"] = dict(n=n2, kind=k2, names=[names[i] for i in perm], intdtype=False,
+                       mats=[mats2[i] for i in perm])
     c["words"] = [draw(G.word(names, 10)) for _ in range(3)]
     c["same"] = draw(st.integers(0, 4)) == 0
     return c
